@@ -32,7 +32,10 @@ def one_spec(draw, tier):
     rec = draw(st.integers(0, 3)) > 0
     base = gen_fgg.specs(recursive=rec, weights=(0.0, 0.25, 0.5, 0.5, 1.0, 1.0), max_nts=3, max_dom=2 if tier == 'quick' else 3,
                          max_edges=4, max_nodes=6)
-    return draw(gen_fgg.patterned(base, weights=(0.0, 0.25, 0.5, 1.0), p_bcast=0.0) if draw(st.integers(0, 2)) == 0 else base)
+    spec = draw(gen_fgg.patterned(base, weights=(0.0, 0.25, 0.5, 1.0), p_bcast=0.0) if draw(st.integers(0, 2)) == 0 else base)
+    if spec['rules'] and draw(st.integers(0, 4)) == 0:
+        gen_fgg.inject_dead_rule(draw, spec)       # a rule without any derivation listed before the live rules (J_log's None branches)
+    return spec
 
 
 @st.composite
